@@ -25,16 +25,12 @@ CAP = 20
 WORKERS = 6
 
 
-def _touching_pair_counted(v):
-    """match_2d reports a positive matrix entry for a pair of triangles whose exact overlap has zero area but
-    which touch along a common piece of edge, while pp.intersections.triangulations on the lattice coordinates
-    is right (the centring inside match_2d makes the touching edges collinear only up to rounding and
-    shapely/GEOS then returns one whole triangle as the intersection).  Recognised structurally: every wrong
-    matrix entry belongs to such a pair."""
+def _wrong_entries(v):
+    """exact comparison of the match_2d matrix named by the clause with the overlaps that triangulations()
+    computed on the lattice coordinates: list of (i, j, got, ref, shared_edge) for the entries that differ;
+    shared_edge = the two triangles have collinear edges overlapping in a piece of positive length"""
     from fractions import Fraction as F
 
-    if v["clause"] not in ("AveragedRows", "IntegratedCols") or v["in"]["kind"] != "tri":
-        return False
     t1, t2, out = v["in"]["t1"], v["in"]["t2"], v["out"]
     mat = out["avg"] if v["clause"] == "AveragedRows" else out["integ"]
 
@@ -55,15 +51,42 @@ def _touching_pair_counted(v):
     for i in range(len(t1)):
         for j in range(len(t2)):
             ref = w.get((i + 1, j + 1), F(0)) / (area(t1[i]) if v["clause"] == "AveragedRows" else area(t2[j]))
-            if F(*mat[i][j]) != ref:
-                wrong.append((i, j, ref))
-    return bool(wrong) and all(
-        ref == 0 and any(edge_overlap(t1[i][k], t1[i][(k + 1) % 3], t2[j][m], t2[j][(m + 1) % 3])
-                         for k in range(3) for m in range(3))
-        for i, j, ref in wrong)
+            got = F(*mat[i][j])
+            if got != ref:
+                shared = any(edge_overlap(t1[i][k], t1[i][(k + 1) % 3], t2[j][m], t2[j][(m + 1) % 3])
+                             for k in range(3) for m in range(3))
+                wrong.append((i, j, got, ref, shared))
+    return wrong
 
 
-MATCHERS = {"match2d_touching_pair_counted": _touching_pair_counted}
+def _touching_pair_counted(v):
+    """match_2d reports a positive matrix entry for a pair of triangles whose exact overlap has zero area but
+    which touch along a common piece of edge, while pp.intersections.triangulations on the lattice coordinates
+    is right (the centring / projection inside match_2d makes the touching edges collinear only up to rounding
+    and shapely/GEOS then returns one whole triangle as the intersection).  Recognised structurally: every wrong
+    matrix entry belongs to such a pair."""
+    if v["clause"] not in ("AveragedRows", "IntegratedCols") or v["in"]["kind"] != "tri":
+        return False
+    wrong = _wrong_entries(v)
+    return bool(wrong) and all(ref == 0 and shared for _, _, _, ref, shared in wrong)
+
+
+def _shared_edge_pair_lost(v):
+    """Same root cause, other manifestation: for a pair of triangles that overlap in a region of positive area
+    AND have collinear edges sharing a piece, shapely/GEOS returns only points (not a Polygon) after the
+    rounding of the projection, and match_2d drops the pair (entry 0 instead of the overlap); the overlap may
+    at the same time be credited to the neighbour that only touches.  Recognised structurally: every wrong
+    entry belongs to a pair with a shared piece of edge and is either a lost overlap (entry 0, exact overlap
+    positive) or a touching pair counted (exact overlap 0); at least one overlap is lost."""
+    if v["clause"] not in ("AveragedRows", "IntegratedCols") or v["in"]["kind"] != "tri":
+        return False
+    wrong = _wrong_entries(v)
+    return (bool(wrong) and all(shared and (ref == 0 or got == 0) for _, _, got, ref, shared in wrong)
+            and any(got == 0 and ref > 0 for _, _, got, ref, _ in wrong))
+
+
+MATCHERS = {"match2d_touching_pair_counted": _touching_pair_counted,
+            "match2d_shared_edge_pair_lost": _shared_edge_pair_lost}
 # integer directions of integer length
 DIRS = [([1, 0, 0], 1), ([0, 1, 0], 1), ([0, 0, 1], 1), ([-1, 0, 0], 1), ([2, 1, 2], 3), ([1, -2, 2], 3),
         ([3, 4, 0], 5), ([0, -3, 4], 5), ([2, 3, 6], 7), ([-6, 2, 3], 7)]
